@@ -211,6 +211,7 @@ class QosWorld:
         self.pending: list[dict] = []
         self.callers: list[dict] = []
         self.cmd_objs: dict = {}
+        self.qos_objs: dict = {}
         self.connected = True
         self.paused = False
         self.fail_next_write = False
@@ -299,9 +300,13 @@ class QosWorld:
             "prio": c.get("prio", "DEFAULT"),
         }
         self.callers[i] = rec
-        qos = L["QosParams"](
-            max_retries=c.get("retries", 3), timeout=c.get("timeout", 20.0), wait_for_reply=c.get("wfr")
-        )
+        if c.get("qos_of") is not None and c["qos_of"] in self.qos_objs:  # an application re-using one QosParams object
+            qos = self.qos_objs[c["qos_of"]]
+        else:
+            qos = L["QosParams"](
+                max_retries=c.get("retries", 3), timeout=c.get("timeout", 20.0), wait_for_reply=c.get("wfr")
+            )
+        self.qos_objs[i] = qos
         prio = getattr(L["Priority"], c.get("prio", "DEFAULT"))
 
         async def caller() -> None:
